@@ -157,7 +157,7 @@ impl VerifFs for TwinFs {
 
     fn open(&mut self, path: &Path, flags: OpenFlags) -> io::Result<u64> {
         let sim = self.sim.borrow_mut().open(path, flags);
-        let real = std::fs::OpenOptions::new().read(flags.read).write(flags.write).create_new(flags.create_new).open(self.real_path(path));
+        let real = std::fs::OpenOptions::new().read(flags.read).write(flags.write).create_new(flags.create_new).create(flags.create).truncate(flags.truncate).append(flags.append).open(self.real_path(path));
         self.cmp_res(&format!("open({path:?},{flags:?})"), &sim, &real);
         if let (Ok(h), Ok(f)) = (&sim, real) {
             self.files.insert(*h, f);
@@ -237,6 +237,25 @@ impl VerifFs for TwinFs {
         self.cmp_res(&format!("remove_file({path:?})"), &sim, &real);
         sim
     }
+
+    fn file_len(&mut self, handle: u64) -> io::Result<u64> {
+        let sim = self.sim.borrow_mut().file_len(handle);
+        let real = self.files.get(&handle).map(|f| f.metadata().map(|m| m.len())).unwrap_or(Ok(0));
+        self.cmp_res("file_len", &sim, &real);
+        if let (Ok(a), Ok(b), true) = (&sim, &real, self.files.contains_key(&handle)) {
+            if a != b {
+                self.note(format!("file_len: sim {a} vs real {b}"));
+            }
+        }
+        sim
+    }
+
+    fn rename(&mut self, from: &Path, to: &Path) -> io::Result<()> {
+        let sim = self.sim.borrow_mut().rename(from, to);
+        let real = std::fs::rename(self.real_path(from), self.real_path(to));
+        self.cmp_res("rename", &sim, &real);
+        sim
+    }
 }
 
 /// Delegate installed as the thread's backend while a twin world runs.
@@ -272,6 +291,12 @@ impl VerifFs for SharedTwin {
     }
     fn remove_file(&mut self, path: &Path) -> io::Result<()> {
         self.0.borrow_mut().remove_file(path)
+    }
+    fn file_len(&mut self, handle: u64) -> io::Result<u64> {
+        self.0.borrow_mut().file_len(handle)
+    }
+    fn rename(&mut self, from: &Path, to: &Path) -> io::Result<()> {
+        self.0.borrow_mut().rename(from, to)
     }
 }
 
